@@ -7,10 +7,13 @@ p = os.path.join(ROOT, 'kani', 'lex', 'costs.json')
 costs = json.load(open(p)) if os.path.exists(p) else {}
 tab = json.load(open(src))
 c = costs.setdefault(config, {})
+cv = costs.setdefault('covers:' + config, {})
 n_ok = 0
 for h, v in tab.items():
     if v['status'] == 'ok' and v['t'] is not None:
         c[h] = round(v['t'], 1); n_ok += 1
+        sat = sorted(k for k, st in (v.get('covers') or {}).items() if st == 'SATISFIED')
+        if sat: cv[h] = sat
     elif v['status'] in ('timeout',):
         c[h] = None
     # failures / tool errors are not recorded: the harness stays unselected until it has a measured cost
